@@ -615,7 +615,10 @@ impl<'p> Machine<'p> {
                     let r = monitor.check(&view, mk, &mut st, fp);
                     self.stats = st;
                     if let Err((k, msg)) = r {
-                        if msg == "heap exhausted" {
+                        if msg == "monitor budget" {
+                                return Err(Stop::Undef(Undefined::Fuel));
+                            }
+                            if msg == "heap exhausted" {
                             if std::env::var("EMU_DEBUG").is_ok() {
                                 eprintln!("heap exhausted in monitor: free={:#x}", free_reg.0);
                             }
@@ -835,7 +838,7 @@ impl<'p> Machine<'p> {
     /// run to completion; returns the end state of the observable and the violation, if any
     fn exec(&mut self, cfg: &EmuConfig) -> (Result<i64, Undefined>, Option<Violation>) {
         let prog = self.prog;
-        let mut monitor = HeapMonitor::default();
+        let mut monitor = HeapMonitor { enforce_shape: Some(cfg.enforce_shape), ..Default::default() };
         // EMU_TRACE=1: print the source line of every executed item (diagnosis of findings)
         let trace = std::env::var("EMU_TRACE").is_ok();
         let mut pc = prog.entry;
